@@ -209,6 +209,17 @@ fn judge_dom(dom: &WeakDom, set: &BTreeSet<String>, tag: &str, what: &str) -> Ve
             return out;
         }
     };
+    if std::env::var("VERIF_DEBUG").is_ok() {
+        println!("set={:?}\nbinary read-back: {:?}\nxml read-back: {:?}", set, sb, sx);
+    }
+    // compared on the explicitly set names plus everything the XML read-back shows: rbx_xml fills
+    // in no defaults, so whatever it shows was explicitly written (possibly under another canonical
+    // name, e.g. Sound.MaxDistance is stored as an alias of RollOffMaxDistance) and binary must agree
+    let mut set = set.clone();
+    for x in &sx {
+        set.extend(x.2.keys().cloned());
+    }
+    let set = &set;
     if let Some(d) = first_diff(&restrict(&sb, set), &restrict(&sx, set)) {
         out.push((format!("c06|binary-vs-xml|{}", tag), format!("binary and XML read-backs differ: {} [{}]", d, what)));
     }
